@@ -9,9 +9,9 @@ Import ListNotations.
 Local Open Scope N_scope.
 
 Ltac in_dir_tac :=
-  unfold in_dir, filepath_Rel, strings_HasPrefix, go_str_eqb;
+  unfold in_dir, filepath_Rel, strings_HasPrefix, go_str_eqb, s_dotdot, slash;
   match goal with |- context [filepath_rel ?d ?p] => destruct (filepath_rel d p) end;
-  cbn [go_isnil negb fst snd]; go_cases; reflexivity.
+  cbn [go_isnil fst snd app]; go_solve.
 
 Lemma gen_ziputil_inDir_is_model : forall dir p, gen_ziputil_inDir dir p = in_dir dir p.
 Proof. intros. unfold gen_ziputil_inDir. in_dir_tac. Qed.
